@@ -128,7 +128,9 @@ func c18World(names map[string]string, paths []string, scenario string) *imp.Wor
 		w.Prefix("pkg")
 	case "alias=last-element":
 		for _, p := range paths {
-			w.Alias(p, lastElem(p))
+			if token.IsIdentifier(lastElem(p)) { // e.g. .../v1.0.0 is no identifier: not a legal alias to ask for
+				w.Alias(p, lastElem(p))
+			}
 		}
 	case "alias=real-name":
 		for _, p := range paths {
